@@ -808,6 +808,40 @@ pub fn user_defined_vftable_name(rng: &mut Rng, p: &mut Project) -> bool {
     let vname = format!("{}Vftable", p.items[t].name);
     let idx = p.items.len();
     let n = rng.range(1, 9);
+    // Sometimes the user's type is, once resolved, indistinguishable from what pyxis would
+    // generate for an empty vftable block: no fields, same visibility.
+    let look_alike = rng.chance(1, 3);
+    if look_alike {
+        let owner_vis = p.items[t].vis;
+        if let ItemKind::Type { vftable: Some(v), .. } = &mut p.items[t].kind {
+            v.funcs.clear();
+            v.size = None;
+        }
+        p.items[t].vslots = Some(vec![]);
+        p.items.push(Item {
+            module: m,
+            name: vname.clone(),
+            vis: owner_vis,
+            doc: None,
+            kind: ItemKind::Type {
+                fields: vec![],
+                vftable: None,
+                size: None,
+                align: None,
+                packed: false,
+                flags: Flags::default(),
+                singleton: None,
+                impl_funcs: vec![],
+                semicolon_form: rng.chance(1, 2),
+            },
+            csize: 0,
+            calign: p.ptr,
+            vslots: None,
+        });
+        let pos = rng.below(p.modules[m].order.len() + 1);
+        p.modules[m].order.insert(pos, Decl::Item(idx));
+        return true;
+    }
     p.items.push(Item {
         module: m,
         name: vname.clone(),
